@@ -44,7 +44,8 @@ theorem macro_indices_in_range :
   rw [bufferPos_eq]; omega
 
 /-- the macro bodies `S0 S1 s0 s1 Ch Maj` of the current sources are Σ₀ Σ₁ σ₀ σ₁ Ch Maj of §4.1.2,
-for all 32-bit words -/
+for all 32-bit words (proved bit by bit whenever they are not literally written like the standard:
+LemmasTransform `word_bits`) -/
 theorem word_functions_are_fips (x y z : UInt32) :
     Sha256.S0 x = Spec.bigSigma0 x ∧ Sha256.S1 x = Spec.bigSigma1 x ∧
     Sha256.s0 x = Spec.smallSigma0 x ∧ Sha256.s1 x = Spec.smallSigma1 x ∧
